@@ -149,6 +149,10 @@ struct Case {
     engine: bool,
     parallel: bool,
     acts: Vec<Act>,
+    /// router only: before the activities, post one message, checkpoint it (POST …/compaction-checkpoint) and
+    /// delete the summary artifact, so that every later context compilation fails
+    #[serde(default)]
+    break_summaries: bool,
 }
 
 // ------------------------------------------------------------------ provider scripts
@@ -765,7 +769,28 @@ async fn exec_case(c: &Case, root: &Path) -> Result<Exec, String> {
         let app = ripd::verif::build_app(data.clone(), ws.clone(), default_cfg);
         let (_, t) = call_json(&app, req("POST", "/threads/ensure", None)).await;
         thread = t.get("thread_id").and_then(|x| x.as_str()).unwrap_or("").to_string();
+        if c.break_summaries {
+            if c.acts.iter().any(|a| matches!(a, Act::Input { provider: Some(_), .. })) {
+                return Err("unsupported case: break_summaries with an app-level default provider".into());
+            }
+            let (st, v) = call_json(&app, req("POST", &format!("/threads/{thread}/messages"), Some(json!({"content": "preamble"})))).await;
+            let mid = v.get("message_id").and_then(|x| x.as_str()).unwrap_or("").to_string();
+            let pre = Ids { sid: v.get("session_id").and_then(|x| x.as_str()).map(|s| s.to_string()), status: st, ..Default::default() };
+            runs_started += 1;
+            let pre_act = Act::Post { input: InputSpec::Prompt, provider: None };
+            if let Some(h) = wait_done(&data, std::slice::from_ref(&pre_act), std::slice::from_ref(&pre), snaps_before, runs_started).await {
+                hang = Some(h);
+            }
+            let (st2, _) = call_json(&app, req("POST", &format!("/threads/{thread}/compaction-checkpoint"), Some(json!({"summary_markdown": "c07 summary", "to_message_id": mid})))).await;
+            if st2 != 201 {
+                return Err(format!("preamble checkpoint refused: {st2}"));
+            }
+            let _ = std::fs::remove_dir_all(ws.join(".rip").join("artifacts"));
+        }
         for (i, a) in c.acts.iter().enumerate() {
+            if hang.is_some() {
+                break;
+            }
             let mut id = Ids::default();
             match a {
                 Act::Post { input, provider } => {
@@ -898,9 +923,9 @@ fn reqs_term(p: &ProviderSpec, preds: &[Pred], cal: &Calib) -> String {
     }
     coq_list(&out, |s| s.clone())
 }
-fn input_term(i: &InputSpec, p: Option<&ProviderSpec>, preds: &[Pred], cal: &Calib) -> String {
+fn input_term(i: &InputSpec, p: Option<&ProviderSpec>, preds: &[Pred], cal: &Calib, compile_ok: bool) -> String {
     match i {
-        InputSpec::Prompt => format!("(IPrompt true {})", match p { Some(p) => reqs_term(p, preds, cal), None => "[]".into() }),
+        InputSpec::Prompt => format!("(IPrompt {} {})", coq_bool(compile_ok), match p { Some(p) => reqs_term(p, preds, cal), None => "[]".into() }),
         InputSpec::ToolEnv { tool, tmo } => format!("(ITool {} {})", coq_bool(tool.lock()), tool_out_term(*tool, &tool_res(*tool, cal, *tmo == 2))),
         InputSpec::CkCreate { ok } => format!("(ICheckpoint {})", if *ok { "CkCreatedOk" } else { "CkFail" }),
         InputSpec::CkRewindMissing => "(ICheckpoint CkFail)".into(),
@@ -932,7 +957,7 @@ fn case_term(c: &Case, ex: &Exec, cal: &Calib) -> Option<String> {
         let (term, owned): (String, Vec<&Line>) = match a {
             Act::Post { input, provider } => {
                 let (Some(sid), Some(mid)) = (&id.sid, &id.mid) else { return None };
-                let t = format!("APost {} {} {} {}", cfg_term(provider.as_ref()), 200 + i, 100 + i, input_term(input, provider.as_ref(), &ex.preds[i], cal));
+                let t = format!("APost {} {} {} {}", cfg_term(provider.as_ref()), 200 + i, 100 + i, input_term(input, provider.as_ref(), &ex.preds[i], cal, !c.break_summaries));
                 let o = ex.log.iter().filter(|l| (l.is_session() && l.stream == *sid) || (l.is_cont() && ((l.ty == "continuity_message_appended" && l.id == *mid) || l.s("run_session_id") == *sid))).collect();
                 (t, o)
             }
@@ -941,7 +966,7 @@ fn case_term(c: &Case, ex: &Exec, cal: &Calib) -> Option<String> {
                 if id.status != 202 {
                     return None;
                 }
-                let t = format!("AInput {} {} {}", cfg_term(provider.as_ref()), 100 + i, input_term(input, provider.as_ref(), &ex.preds[i], cal));
+                let t = format!("AInput {} {} {}", cfg_term(provider.as_ref()), 100 + i, input_term(input, provider.as_ref(), &ex.preds[i], cal, true));
                 let o = ex.log.iter().filter(|l| l.is_session() && l.stream == *sid).collect();
                 (t, o)
             }
@@ -951,7 +976,7 @@ fn case_term(c: &Case, ex: &Exec, cal: &Calib) -> Option<String> {
                 if id.status != 202 || id.status2 == 202 {
                     return None;
                 }
-                let t = format!("AInput {} {} {}", cfg_term(None), 100 + i, input_term(first, None, &[], cal));
+                let t = format!("AInput {} {} {}", cfg_term(None), 100 + i, input_term(first, None, &[], cal, true));
                 let o = ex.log.iter().filter(|l| l.is_session() && l.stream == *sid).collect();
                 (t, o)
             }
@@ -961,10 +986,12 @@ fn case_term(c: &Case, ex: &Exec, cal: &Calib) -> Option<String> {
                     return None;
                 }
                 let t = format!("AJob {} (JDone {})", 300 + i, id.planned);
+                // checkpoints written after this job's spawn frame are the job's (one job per case)
+                let spawn_pos = ex.log.iter().find(|l| l.ty == "continuity_job_spawned" && l.s("job_id") == *j).map(|l| l.pos).unwrap_or(usize::MAX);
                 let o = ex
                     .log
                     .iter()
-                    .filter(|l| l.is_cont() && (l.ty == "continuity_compaction_checkpoint_created" || ((l.ty == "continuity_job_spawned" || l.ty == "continuity_job_ended") && l.s("job_id") == *j)))
+                    .filter(|l| l.is_cont() && ((l.ty == "continuity_compaction_checkpoint_created" && l.pos > spawn_pos) || ((l.ty == "continuity_job_spawned" || l.ty == "continuity_job_ended") && l.s("job_id") == *j)))
                     .collect();
                 (t, o)
             }
@@ -1092,7 +1119,9 @@ fn gen_case(r: &mut Rng, i: usize) -> Case {
     if !engine && r.chance(1, 5) {
         acts.push(Act::Job { stride: r.range(1, 2), max_new: r.range(1, 3) });
     }
-    Case { engine, parallel, acts }
+    // (the preamble post would consume the app-level default provider's first script)
+    let break_summaries = !engine && !default_used && r.chance(1, 7);
+    Case { engine, parallel, acts, break_summaries }
 }
 
 fn text_req(events: Vec<Sse>) -> Req {
@@ -1103,35 +1132,37 @@ fn corpus() -> Vec<Case> {
     let post = |reqs: Vec<Req>| Act::Post { input: InputSpec::Prompt, provider: Some(p(reqs, false, Choice::Auto)) };
     vec![
         // text only
-        Case { engine: false, parallel: false, acts: vec![post(vec![text_req(vec![Sse::Created { id: true }, Sse::Delta, Sse::Delta, Sse::Completed { id: true }])])] },
+        Case { break_summaries: false, engine: false, parallel: false, acts: vec![post(vec![text_req(vec![Sse::Created { id: true }, Sse::Delta, Sse::Delta, Sse::Completed { id: true }])])] },
         // no provider at all (kernel stub)
-        Case { engine: false, parallel: false, acts: vec![Act::Post { input: InputSpec::Prompt, provider: None }] },
+        Case { break_summaries: false, engine: false, parallel: false, acts: vec![Act::Post { input: InputSpec::Prompt, provider: None }] },
         // one tool round with a workspace-mutating tool, then text: selection, compiled, side effects, cursor
-        Case { engine: false, parallel: false, acts: vec![post(vec![text_req(vec![Sse::Created { id: true }, Sse::Call(Tool::WriteOk), Sse::Call(Tool::Ls)]), text_req(vec![Sse::Created { id: true }, Sse::Delta])])] },
+        Case { break_summaries: false, engine: false, parallel: false, acts: vec![post(vec![text_req(vec![Sse::Created { id: true }, Sse::Call(Tool::WriteOk), Sse::Call(Tool::Ls)]), text_req(vec![Sse::Created { id: true }, Sse::Delta])])] },
         // tool round without a response id: provider_error
-        Case { engine: false, parallel: false, acts: vec![post(vec![text_req(vec![Sse::Created { id: false }, Sse::Call(Tool::BashEcho)])])] },
+        Case { break_summaries: false, engine: false, parallel: false, acts: vec![post(vec![text_req(vec![Sse::Created { id: false }, Sse::Call(Tool::BashEcho)])])] },
         // every early exit of one request
-        Case { engine: false, parallel: false, acts: vec![post(vec![Req::Http(500)]), post(vec![Req::Empty]), post(vec![Req::Stream { events: vec![Sse::Created { id: true }, Sse::Delta], done: true, partial_tail: false, cuts: vec![], drop_at: Some(0) }])] },
-        Case { engine: false, parallel: false, acts: vec![post(vec![Req::Stream { events: vec![Sse::Created { id: true }, Sse::Delta, Sse::Delta], done: true, partial_tail: false, cuts: vec![500], drop_at: Some(150) }])] },
+        Case { break_summaries: false, engine: false, parallel: false, acts: vec![post(vec![Req::Http(500)]), post(vec![Req::Empty]), post(vec![Req::Stream { events: vec![Sse::Created { id: true }, Sse::Delta], done: true, partial_tail: false, cuts: vec![], drop_at: Some(0) }])] },
+        Case { break_summaries: false, engine: false, parallel: false, acts: vec![post(vec![Req::Stream { events: vec![Sse::Created { id: true }, Sse::Delta, Sse::Delta], done: true, partial_tail: false, cuts: vec![500], drop_at: Some(150) }])] },
         // envelopes, linked and not
-        Case { engine: false, parallel: true, acts: vec![Act::Post { input: InputSpec::ToolEnv { tool: Tool::WriteOk, tmo: 0 }, provider: None }, Act::Input { input: InputSpec::ToolEnv { tool: Tool::BashSleep, tmo: 2 }, provider: None }, Act::Post { input: InputSpec::CkCreate { ok: true }, provider: None }] },
+        Case { break_summaries: false, engine: false, parallel: true, acts: vec![Act::Post { input: InputSpec::ToolEnv { tool: Tool::WriteOk, tmo: 0 }, provider: None }, Act::Input { input: InputSpec::ToolEnv { tool: Tool::BashSleep, tmo: 2 }, provider: None }, Act::Post { input: InputSpec::CkCreate { ok: true }, provider: None }] },
         // restricted / barred / invalid tool_choice (engine)
-        Case { engine: true, parallel: false, acts: vec![Act::Post { input: InputSpec::Prompt, provider: Some(p(vec![text_req(vec![Sse::Created { id: true }, Sse::Call(Tool::Ls), Sse::Call(Tool::BashEcho)]), text_req(vec![Sse::Delta])], false, Choice::OnlyLs)) }] },
-        Case { engine: true, parallel: false, acts: vec![Act::Post { input: InputSpec::Prompt, provider: Some(p(vec![text_req(vec![Sse::Delta])], false, Choice::Invalid)) }] },
+        Case { break_summaries: false, engine: true, parallel: false, acts: vec![Act::Post { input: InputSpec::Prompt, provider: Some(p(vec![text_req(vec![Sse::Created { id: true }, Sse::Call(Tool::Ls), Sse::Call(Tool::BashEcho)]), text_req(vec![Sse::Delta])], false, Choice::OnlyLs)) }] },
+        Case { break_summaries: false, engine: true, parallel: false, acts: vec![Act::Post { input: InputSpec::Prompt, provider: Some(p(vec![text_req(vec![Sse::Delta])], false, Choice::Invalid)) }] },
         // parallel runs on one thread + a job
-        Case { engine: false, parallel: true, acts: vec![post(vec![text_req(vec![Sse::Created { id: true }, Sse::Call(Tool::BashEcho)]), text_req(vec![Sse::Delta])]), post(vec![text_req(vec![Sse::Delta])]), Act::Post { input: InputSpec::Prompt, provider: None }, Act::Job { stride: 1, max_new: 2 }] },
+        Case { break_summaries: false, engine: false, parallel: true, acts: vec![post(vec![text_req(vec![Sse::Created { id: true }, Sse::Call(Tool::BashEcho)]), text_req(vec![Sse::Delta])]), post(vec![text_req(vec![Sse::Delta])]), Act::Post { input: InputSpec::Prompt, provider: None }, Act::Job { stride: 1, max_new: 2 }] },
+        // context compilation fails (summary artifact gone): the run ends with context_compile_failed, run_ended follows
+        Case { break_summaries: true, engine: false, parallel: false, acts: vec![post(vec![text_req(vec![Sse::Delta])]), Act::Post { input: InputSpec::Prompt, provider: None }, Act::Post { input: InputSpec::ToolEnv { tool: Tool::WriteOk, tmo: 0 }, provider: None }] },
         // S6: two inputs on one session
-        Case { engine: false, parallel: false, acts: vec![Act::Input2 { first: InputSpec::Prompt, second: InputSpec::Prompt, wait: true }] },
-        Case { engine: false, parallel: false, acts: vec![Act::Input2 { first: InputSpec::ToolEnv { tool: Tool::BashEcho, tmo: 0 }, second: InputSpec::Prompt, wait: false }, Act::Post { input: InputSpec::Prompt, provider: None }] },
+        Case { break_summaries: false, engine: false, parallel: false, acts: vec![Act::Input2 { first: InputSpec::Prompt, second: InputSpec::Prompt, wait: true }] },
+        Case { break_summaries: false, engine: false, parallel: false, acts: vec![Act::Input2 { first: InputSpec::ToolEnv { tool: Tool::BashEcho, tmo: 0 }, second: InputSpec::Prompt, wait: false }, Act::Post { input: InputSpec::Prompt, provider: None }] },
         // tool-call limit: 3 rounds of 12 calls
-        Case { engine: false, parallel: false, acts: vec![post((0..4).map(|_| text_req(std::iter::once(Sse::Created { id: true }).chain((0..12).map(|_| Sse::Call(Tool::Ls))).collect())).collect())] },
+        Case { break_summaries: false, engine: false, parallel: false, acts: vec![post((0..4).map(|_| text_req(std::iter::once(Sse::Created { id: true }).chain((0..12).map(|_| Sse::Call(Tool::Ls))).collect())).collect())] },
     ]
 }
 
 fn calibrate(rt: &tokio::runtime::Runtime) -> Calib {
     let sc = Scratch::new("c07cal");
     let acts: Vec<Act> = CALL_TOOLS.iter().map(|t| Act::Input { input: InputSpec::ToolEnv { tool: *t, tmo: 0 }, provider: None }).collect();
-    let c = Case { engine: true, parallel: false, acts };
+    let c = Case { engine: true, parallel: false, acts, break_summaries: false };
     let ex = rt.block_on(exec_case(&c, sc.path())).expect("calibration store");
     let mut cal = Calib::new();
     for (t, id) in CALL_TOOLS.iter().zip(&ex.ids) {
@@ -1145,6 +1176,9 @@ fn calibrate(rt: &tokio::runtime::Runtime) -> Calib {
 
 fn label(c: &Case) -> Vec<String> {
     let mut v = vec![format!("route={}", if c.engine { "engine" } else { "router" }), format!("acts={}", c.acts.len()), format!("parallel={}", c.parallel)];
+    if c.break_summaries {
+        v.push("compile=fails".into());
+    }
     for a in &c.acts {
         match a {
             Act::Post { input, provider } | Act::Input { input, provider } => {
